@@ -163,14 +163,8 @@ func runVariantChild(root string, name string, known []knownFinding) {
 	out()
 }
 
-// runSelftest runs all (or the selected) variants in child processes, 4 at a time.
-func runSelftest(root, verif string, filter string, par int) int {
-	var sel []variant
-	for _, v := range variants {
-		if filter == "" || strings.Contains(v.Name, filter) || contains(v.Props, filter) {
-			sel = append(sel, v)
-		}
-	}
+// runVariants runs the given variants, each in a child process (one overlay load each), par at a time.
+func runVariants(root, verif string, sel []variant, par int) []variantResult {
 	results := make([]variantResult, len(sel))
 	var wg sync.WaitGroup
 	sem := make(chan struct{}, par)
@@ -194,6 +188,50 @@ func runSelftest(root, verif string, filter string, par int) int {
 		}(i, v)
 	}
 	wg.Wait()
+	return results
+}
+
+// selfValidation is the thorough tier's checker self-validation for one property: every seeded and benign overlay
+// variant that involves the property is applied to the CURRENT source (in memory) and analysed. The tally goes into
+// the evidence; it never changes the verdict about /repo.
+func selfValidation(root, verif, prop string, par int) map[string]interface{} {
+	var sel []variant
+	for _, v := range variants {
+		if contains(v.Props, prop) {
+			sel = append(sel, v)
+		}
+	}
+	results := runVariants(root, verif, sel, par)
+	tally := map[string]int{}
+	var brief []map[string]string
+	for _, r := range results {
+		tally[r.Status]++
+		e := map[string]string{"variant": r.Name, "status": r.Status}
+		if r.Status != "fired" && r.Status != "silent" {
+			e["detail"] = r.Detail
+			if len(r.Violated) > 0 {
+				e["obligations"] = strings.Join(r.Violated, "; ")
+			}
+		}
+		brief = append(brief, e)
+	}
+	return map[string]interface{}{
+		"what":     "seeded variants (one rule instance broken in an in-memory overlay of the current source; the rule must fire and name it) and benign variants (behaviour-preserving rewrites; every rule must stay silent); 'stale' = the text the variant edits no longer exists on this tree",
+		"variants": len(sel),
+		"tally":    tally,
+		"results":  brief,
+	}
+}
+
+// runSelftest runs all (or the selected) variants in child processes, 4 at a time.
+func runSelftest(root, verif string, filter string, par int) int {
+	var sel []variant
+	for _, v := range variants {
+		if filter == "" || strings.Contains(v.Name, filter) || contains(v.Props, filter) {
+			sel = append(sel, v)
+		}
+	}
+	results := runVariants(root, verif, sel, par)
 	tally := map[string]int{}
 	bad := 0
 	for i, r := range results {
